@@ -260,6 +260,12 @@ func c11Worker(args []string) {
 						script = fmt.Sprintf("c = c + 1; if (hour(%d) == %d && minute(%d) == %d && seconds(%d) == %d && day(%d) == %d && month(%d) == %d && year(%d) == %d && weekday(%d) == \"%s\" && now() > 0) { return c; } return 0 - c;",
 							ts, tm.Hour(), ts, tm.Minute(), ts, tm.Second(), ts, tm.Day(), ts, int(tm.Month()), ts, tm.Year(), ts, tm.Weekday().String())
 					}
+					if k%10 == 6 {
+						// deep recursion in many evaluators at the same moment: every machine has
+						// its own call depth (sixteen of these together are far beyond any limit
+						// one machine has)
+						script = "c = c + 1; function down(n) { if (n <= 0) { return 0; } return 1 + down(n - 1); } if (down(2500) == 2500 && Word ~= /^w/) { return c; } return 0 - c;"
+					}
 					if k%5 == 1 {
 						// host objects of different evaluators may share sub-structures (one
 						// labels / configuration map referenced from many records)
@@ -418,6 +424,42 @@ func c11Worker(args []string) {
 					if err != nil || !ok {
 						mmu.Lock()
 						res.OwnMismatch = append(res.OwnMismatch, fmt.Sprintf("fresh struct type #%d, evaluator %d: Run gives %v err=%v (expected true)", tn, w, ok, err))
+						mmu.Unlock()
+					}
+				}(w)
+			}
+			close(start)
+			wgT.Wait()
+			res.OwnRuns += workers
+			if len(res.OwnMismatch) > 20 {
+				break
+			}
+		}
+	}
+	// deep recursion in eight evaluators at the same moment: 8 x 4000 nested calls is far
+	// beyond the limit one machine has, and every machine has its own
+	{
+		const workers = 8
+		evals := make([]*evalfilter.Eval, workers)
+		for w := range evals {
+			evals[w] = evalfilter.New(`function down(n) { if (n <= 0) { return 0; } return 1 + down(n - 1); } return down(Depth) == Depth;`)
+			if err := evals[w].Prepare(); err != nil {
+				res.Errors = append(res.Errors, "prepare: "+err.Error())
+			}
+		}
+		var mmu sync.Mutex
+		for rep := 0; rep < 10*rounds; rep++ {
+			start := make(chan struct{})
+			var wgT sync.WaitGroup
+			for w := 0; w < workers; w++ {
+				wgT.Add(1)
+				go func(w int) {
+					defer wgT.Done()
+					<-start
+					ok, err := evals[w].Run(map[string]interface{}{"Depth": 4000 + w})
+					if err != nil || !ok {
+						mmu.Lock()
+						res.OwnMismatch = append(res.OwnMismatch, fmt.Sprintf("eight evaluators recursing 4000 deep at once, evaluator %d: Run gives %v err=%v (expected true)", w, ok, err))
 						mmu.Unlock()
 					}
 				}(w)
